@@ -11,6 +11,7 @@ import (
 	"math/big"
 	"net"
 	"strconv"
+	"strings"
 
 	pt "gitlab.torproject.org/tpo/anti-censorship/pluggable-transports/goptlib"
 
@@ -349,6 +350,9 @@ func scenarios(cfg *mc.Config, emit func(mc.Scenario)) {
 	for _, first := range []string{"resp-write-error", "client-leaves", "garbage", "ok"} {
 		emit(abortedThenConnect(seed, first))
 	}
+	for _, order := range [][]string{{"P0", "P1", "D0", "D1"}, {"P0", "P1", "D1", "D0"}, {"P0", "D0", "P1", "P2", "D2", "D1"}} {
+		emit(parseDialOrders(seed, order))
+	}
 	type concT struct {
 		n     int
 		kinds []string
@@ -500,6 +504,98 @@ func scenarios(cfg *mc.Config, emit func(mc.Scenario)) {
 //	    reports an error (the peer reset right behind it);
 //	client-leaves: the client disconnects after a valid handshake, before reading;
 //	garbage: an invalid handshake (never answered).
+// parseDialOrders: tor opens several connections to one bridge at once, so the
+// arguments of several connections are parsed before any of them is dialled
+// (Pi = ParseArgs for connection i, Di = Dial with the object Pi returned; every
+// parsed object is dialled once). Every connection completes with the genuine
+// bridge, carries data, and presents an ephemeral key no other connection has.
+func parseDialOrders(seed int64, order []string) mc.Scenario {
+	return mc.Scenario{Name: "parse-dial-orders/" + strings.Join(order, "-"), Weight: 10, Run: func(c *mc.Ctx) {
+		br := o4h.NewBridge(seed, "c02/0", 0, false)
+		rnd.Install(rnd.New(seed, "c02-real-orders"))
+		sf, err := br.ServerFactory()
+		if err != nil {
+			fail(c, "setup", "setup", "%v", err)
+			return
+		}
+		parsed := map[string]interface{}{}
+		reprs := map[string]string{}
+		var sum []string
+		res := sched.Run(c, sched.Options{NoPreempt: true, NoEarlyTimers: true, MaxSteps: 3_000_000}, func() {
+			s := sched.Cur()
+			for _, op := range order {
+				i := op[1:]
+				if op[0] == 'P' {
+					pa, err := o4h.ParseArgs(br.ClientArgs("cert", sf))
+					if err != nil {
+						fail(c, "setup", "setup", "ParseArgs: %v", err)
+						return
+					}
+					parsed[i] = pa
+					continue
+				}
+				cw, sw := wire.Pipe("client"+i, "server"+i)
+				var srvGot []byte
+				var wrapErr error
+				done := false
+				s.Spawn("server"+i, func() {
+					defer func() { done = true }()
+					var conn net.Conn
+					conn, wrapErr = sf.WrapConn(sw)
+					if wrapErr != nil {
+						return
+					}
+					buf := make([]byte, 64)
+					nr, err := conn.Read(buf)
+					if err != nil {
+						return
+					}
+					srvGot = append([]byte{}, buf[:nr]...)
+					conn.Write(buf[:nr])
+				})
+				conn, dialErr := o4h.DialParsed(parsed[i], cw)
+				var echo []byte
+				msg := []byte("hello-from-connection-" + i)
+				if dialErr == nil {
+					conn.Write(msg)
+					buf := make([]byte, 64)
+					for len(echo) < len(msg) {
+						nr, err := conn.Read(buf)
+						echo = append(echo, buf[:nr]...)
+						if err != nil {
+							break
+						}
+					}
+					conn.Close()
+				} else {
+					cw.Close()
+				}
+				s.Point("server-done"+i, func() bool { return done })
+				sum = append(sum, fmt.Sprintf("%s:%v/%v/%s", op, dialErr != nil, wrapErr != nil, echo))
+				if dialErr != nil || wrapErr != nil {
+					fail(c, "must-complete", "rejected/parse-dial-orders", "connection %s of %v: Dial=%v WrapConn=%v", i, order, dialErr, wrapErr)
+					return
+				}
+				if !bytes.Equal(echo, msg) || !bytes.Equal(srvGot, msg) {
+					fail(c, "session-keys", "echo/parse-dial-orders", "connection %s of %v: echo %q, server saw %q, want %q", i, order, echo, srvGot, msg)
+					return
+				}
+				for _, kv := range [][2]string{{"client", firstBytes(cw, 32)}, {"server", firstBytes(sw, 32)}} {
+					if prev, dup := reprs[kv[1]]; dup {
+						fail(c, "fresh-ephemerals", "ephemeral-reuse/parse-dial-orders", "%v: the %s representative of connection %s equals %s", order, kv[0], i, prev)
+						return
+					}
+					reprs[kv[1]] = fmt.Sprintf("the %s representative of connection %s", kv[0], i)
+				}
+			}
+		})
+		if len(res.Panics) > 0 {
+			fail(c, "no-panic", "panic/parse-dial-orders", "%s", res.Panics[0])
+		}
+		c.Observe("orders", fmt.Sprint(sum))
+	}}
+}
+
 func abortedThenConnect(seed int64, first string) mc.Scenario {
 	return mc.Scenario{Name: "aborted-then-connect/" + first, Weight: 20, Run: func(c *mc.Ctx) {
 		br := o4h.NewBridge(seed, "c02/0", 0, false)
